@@ -749,6 +749,9 @@ class StretchyTreeMatcher:
             std_value = stdTup[1]
 
             if ins_value is None:
+                # An absent field matches anything, but the literal None only matches the literal None
+                if isinstance(ins, ast.Constant) and ins_field == 'value':
+                    is_match = std_value is None
                 continue
 
             ignore_field = ins_field in ignores
